@@ -269,7 +269,7 @@ func TestC11Sim(t *testing.T) {
 
 // C11 (real-time part): every acknowledged change reaches the store within the persist interval.
 func TestC11Persist(t *testing.T) {
-	col := ev.Get("C11", "persist", "16 runners at a time, each driven through a generated short history (schedule/cancel/finish/timer/hold) without any explicit save, left alone for the persist interval, then given 0-2 late single changes and left alone again; after 3 s (the persist interval) + 1.5 s slack the last snapshot the store received must equal the reported state of every job; a canary timer marks the batch inconclusive if the process was starved; non-trivial = the history changed state after the first automatic save (so the debounced second save is what must deliver it); distinct by action trace")
+	col := ev.Get("C11", "persist", "16 runners at a time, each driven through a generated short history (schedule/cancel/finish/timer/hold) without any explicit save, left alone for the persist interval, then given 0-2 late single changes - or one job completion that is deliberately placed behind the saves which the reports of its last task trigger (scheduler loop parked, last task finished, loop released after more than a persist interval) - and left alone again; after 3 s (the persist interval) + 1.5 s slack the last snapshot the store received must equal the reported state of every job; a canary timer marks the batch inconclusive if the process was starved; non-trivial = the history changed state after the first automatic save (so the debounced second save is what must deliver it); distinct by action trace")
 	cfg := &Cfg{Prop: "C11", MaxPipelines: 2, MaxTasks: 3, DelayPct: 25, ReplacePct: 20, AllowFailPct: 15, ContinuePct: 30,
 		LimitChoices: []int{-1, -1, 2, 3}, Weights: map[string]int{"schedule": 34, "cancel": 10, "finish": 30, "timer": 8, "hold": 3, "release": 4},
 		Armed: map[string]bool{"C11": true}}
@@ -289,12 +289,37 @@ func TestC11Persist(t *testing.T) {
 			for s := 0; s < n; s++ {
 				m.Step(rt, 15)
 			}
+			if pct(rt, 70, "leaveLastTasksRunning") {
+				m.PrepareLastTasks(rt)
+			}
 		}
 		// let every persist loop become idle, then make single late changes: each of them must reach the
 		// store on its own (nothing else will trigger a save afterwards)
-		time.Sleep(3300 * time.Millisecond)
+		// (a loop that was asleep when the last change came saves when it wakes and sleeps another interval)
+		time.Sleep(6300 * time.Millisecond)
+		var parked []*SimRunner
+		var parkedOf []*Machine
+		for _, m := range ms {
+			if pct(rt, 75, "completionBehindSave") {
+				if r := m.BeginCompleteBehindSave(rt); r != nil {
+					parked, parkedOf = append(parked, r), append(parkedOf, m)
+				}
+			}
+		}
+		if len(parked) > 0 {
+			time.Sleep(3300 * time.Millisecond)
+			for i, r := range parked {
+				parkedOf[i].EndCompleteBehindSave(r)
+			}
+			lastChange = time.Now()
+		}
 		for _, m := range ms {
 			n := rapid.IntRange(0, 2).Draw(rt, "lateSteps")
+			for _, pm := range parkedOf {
+				if pm == m {
+					n = 0
+				}
+			}
 			for s := 0; s < n; s++ {
 				m.Step(rt, 15)
 			}
@@ -335,7 +360,7 @@ func TestC11Persist(t *testing.T) {
 					m.fail("C11", "job #%d: the store lags behind the reported state after the persist interval: %s", j.AcceptIdx, d)
 				}
 			}
-			col.Add(strings.Join(m.w.Trace, "\n"), saves >= 2, map[string]int{"second-automatic-save": btoi(saves >= 2), "jobs>=3": btoi(len(s.Jobs) >= 3)}, m.w.Stats.Steps, m.w.Trace)
+			col.Add(strings.Join(m.w.Trace, "\n"), saves >= 2, map[string]int{"second-automatic-save": btoi(saves >= 2), "jobs>=3": btoi(len(s.Jobs) >= 3), "completion-behind-save": m.w.Stats.Classes["completion-behind-save"], "completion-behind-save:no-candidate": m.w.Stats.Classes["completion-behind-save:no-candidate"], "prepared": m.w.Stats.Classes["prepared"]}, m.w.Stats.Steps, m.w.Trace)
 		}
 	})
 }
